@@ -30,7 +30,8 @@ CHUNK = 2500
 RULE = ("every call of the TLA+ enumeration: (constructor, how the step is communicated: step / samplerate / size, alone, agreeing or "
         "conflicting; step, start, stop in quarter steps, way the stop double is formed); "
         "(step, start, length, query position among: each coordinate as read back, its two neighbouring doubles, each midpoint, "
-        "half a step beyond both ends, raise/clamp, coordinate dtype float64/float32/int64/int32); (array shape <= 3 dims, queried dimensions "
+        "half a step beyond both ends, raise/clamp, coordinate dtype float64/float32/int64/int32, 1-D to 3-D arrays with the queried dimension "
+        "first / middle / last); (array shape <= 3 dims, queried dimensions "
         "and positions, scalar/array value, coordinate dtype, layout of the object: registration order of the coordinates, "
         "transposition, a dimension without coordinate). "
         "non-trivial = a range with at least one point, or a lookup/write on a non-empty axis")
@@ -201,7 +202,9 @@ def _range(case):
 def _index(case):
     n = case["n"]
     v = make_axis("x", case["a4"], case["s"], n, case.get("dt", "f8"), case.get("sa", [[1, 1]]), case.get("ir", 0))
-    arr = xr.DataArray(np.zeros(v.sizes["x"]), dims=["x"], coords={"x": v})
+    before, after = case.get("nd", [[], []])                       # sizes of the other dimensions in front of / behind the queried one
+    dims = [f"b{j}" for j in range(len(before))] + ["x"] + [f"a{j}" for j in range(len(after))]
+    arr = xr.DataArray(np.zeros(list(before) + [v.sizes["x"]] + list(after)), dims=dims, coords={"x": v})
     arr = with_range_attrs(arr, ["x"], step_of(case), case.get("ra", []))
     coords = arr.coords["x"].data
     q = pos_to_value(coords, step_of(case), case["p"])
@@ -329,7 +332,10 @@ def random_cases(rng, tier):
         ra = []
         if dt == "f8" and sa == [[1, 1]] and ir == 0 and rng.random() < 0.3:
             ra = [rng.choice([["attrs", rng.randrange(1, 40), rng.randrange(1, 40)], ["extend", 1, rng.randrange(1, 8)]])]
-        yield {"kind": "index", "s": s, "a4": a4, "dt": dt, "n": n, "p": p, "re": rng.random() < 0.5, "sa": sa, "ir": ir, "ra": ra}
+        nd = [[], []]
+        if rng.random() < 0.4:
+            nd = [[rng.randrange(1, 6) for _ in range(rng.randrange(0, 3))], [rng.randrange(1, 6) for _ in range(rng.randrange(0, 2))]]
+        yield {"kind": "index", "s": s, "a4": a4, "dt": dt, "n": n, "p": p, "re": rng.random() < 0.5, "sa": sa, "ir": ir, "ra": ra, "nd": nd}
     for _ in range(100 * k):
         d = rng.randrange(1, 4)
         sh = [rng.randrange(1, 4) for _ in range(d)]
